@@ -81,6 +81,9 @@ func (p *Provider) start(ctx context.Context, ammoFile afero.File) error {
 		if err != nil {
 			return errors.Wrap(err, "gPRC Provider scan() err")
 		}
+		if p.Limit != 0 && ammoNum >= p.Limit {
+			break
+		}
 		if p.Passes != 0 && passNum >= p.Passes {
 			break
 		}
